@@ -149,7 +149,7 @@ def function_cases(draw):
         "input": draw(st.sampled_from(["float", "float", "q-same", "q-other"])),
         "scales": draw(st.sampled_from(["ones", "drawn", "drawn", "calibrated"])),
         "seed": draw(st.integers(0, 2**20)),
-        "batch": draw(st.lists(st.integers(1, 4), min_size=1, max_size=2)),
+        "batch": draw(st.lists(st.integers(1, 4), min_size=0 if kind == "linear" else 1, max_size=2)),  # () = a single vector
         "mag": draw(st.sampled_from([1.0, 1.0, 0.1, 8.0])),
     }
     if kind == "linear":
